@@ -57,26 +57,33 @@ def run(ctx):
         "locking / concurrent interleavings inside AliveDialerSet and DialerGroup are not modelled (each call is atomic in the model)",
         "fastrand: only the set of possible answers of the random policy is compared, not their distribution",
     ]
-    ctx.prove(["DaeVerif.C15.Props"], ["DaeVerif.C15.Props"], ["DaeVerif/C15/*.lean"], extra_targets=["c15drv"])
-    ctx.required_theorems(REQUIRED)
-
     shim = os.path.join(VERIF, "harness", "overlay", "component", "outbound", "dialer", "c15_shim.go")
-    binp = ctx.go_test_build("component/outbound", ["component/outbound/c15_test.go"], "c15",
-                             extra_overlay={os.path.join(REPO, "component", "outbound", "dialer", "zz_verif_c15_shim.go"): shim})
-    if not binp:
-        return 2
-    rc, out = ctx.run_harness(binp, "TestVerifC15")
-    if rc != 0:
-        ctx.say("HARNESS-FAILED", out[-3000:])
-        return 2
-    # control/dial.go: the real chooseProxyDialer over a real group (package control)
-    binc = ctx.go_test_build("control", ["control/c15_test.go"], "c15dial",
-                             extra_overlay={os.path.join(REPO, "component", "outbound", "dialer", "zz_verif_c15_shim.go"): shim})
-    if not binc:
-        return 2
-    rc, out = ctx.run_harness(binc, "TestVerifC15Dial")
-    if rc != 0:
-        ctx.say("HARNESS-FAILED", out[-3000:])
+    ov = {os.path.join(REPO, "component", "outbound", "dialer", "zz_verif_c15_shim.go"): shim}
+
+    def prove():
+        ctx.prove(["DaeVerif.C15.Props"], ["DaeVerif.C15.Props"], ["DaeVerif/C15/*.lean"], extra_targets=["c15drv"])
+        ctx.required_theorems(REQUIRED)
+        return 0
+
+    def harness(pkg, src, name, test):
+        binp = ctx.go_test_build(pkg, [src], name, extra_overlay=ov)
+        if not binp:
+            return 2
+        rc, out = ctx.run_harness(binp, test)
+        if rc != 0:
+            ctx.say("HARNESS-FAILED", out[-3000:])
+            return 2
+        return 0
+
+    # three independent jobs (proof + axiom audit, outbound harness, control harness) side by side
+    from concurrent.futures import ThreadPoolExecutor
+    with ThreadPoolExecutor(3) as ex:
+        jobs = [ex.submit(prove),
+                ex.submit(harness, "component/outbound", "component/outbound/c15_test.go", "c15", "TestVerifC15"),
+                # control/dial.go: the real chooseProxyDialer over a real group (package control)
+                ex.submit(harness, "control", "control/c15_test.go", "c15dial", "TestVerifC15Dial")]
+        rcs = [j.result() for j in jobs]
+    if any(rcs):
         return 2
     n_eval = 0
     distinct = set()
